@@ -295,6 +295,9 @@ def make_scenario(spec):
         zone.append('ERR TXT remote.example %d' % errno.EAGAIN)
     doms = {W.LOCAL: {'alice': None, 'carol': None, 'dave': None, 'dave/nomail': b'', 'erin': None,
                       'erin/filterconf': b'check_strict_rfc2822=1\n'}}
+    if w.get('catchall'):
+        # a catch-all delivery instruction: every local part of the domain is accepted as it was spelled
+        doms[W.LOCAL]['.qmail-default'] = b'| /usr/bin/deliver-somewhere\n'
     if w.get('strict_all'):
         for u in ('alice', 'carol'):
             doms[W.LOCAL][u + '/filterconf'] = b'check_strict_rfc2822=1\n'
